@@ -25,7 +25,7 @@ def run(rep, tier, seed):
     if thorough:
         pc.drive(rep, work, binp, seed + 500, 15, "clean,fault1,fault2", "chop,copy,stream", 40, big=True, tag="big")
     # the command glue: the real binary end to end, judged by CliOutcome.tla
-    cli_common.run(rep, vlib.workdir("C06-cli"), seed, "fault", tier == "thorough")
+    cli_common.run(rep, vlib.workdir("C06-cli"), seed, "fault,make", tier == "thorough")
     rep.rule = ("case = generated input (blocks from a 1-3 element alphabet: many duplicate chunks; repeating data through the real "
                 "chunker for ChunkStream; some chop inputs that do not belong to the index; some IDs pre-stored) x 1-3 workers x "
                 "fault plan (none, every single k-th store call, sampled pairs) x random/PCT schedule; distinct = different event "
